@@ -165,6 +165,11 @@ def run(ctx, chk):
         for sre, nm in ((SL + r"SeqIter<A>$", "SeqIter"), (SL + r"RevIter<A>$", "RevIter"), (SL + r"SeqChunks<A>$", "SeqChunks")):
             an.no_overrides(chk, cfg.bio, "I-override", nm, ITER, sre, ("next",))
         glue(chk, cfg)
+    import core
+    for cfg in ctx.configs():
+        chk.cfg = cfg.name
+        # items are slices / symbols taken with Index: what they denote is C03's rows
+        core.import_rows(chk, cfg, "C03", "props.C03", ("R-index", "S-len", "S-nth", "I-transparent"))
     chk.floor("iterator transition rows", chk.rule_sites.get("G02/guard", 0) + chk.rule_sites.get("G03/guard", 0) + chk.rule_sites.get("G04/guard", 0), 3 * len(chk.configs))
 
 
